@@ -50,6 +50,7 @@ type vOp struct {
 type vCase struct {
 	variant string
 	store   string // mem | noop
+	stats   string // "" | next | footer: which offset statistics the fake Lister puts on a SegmentRef (sql only)
 	segs    []vSeg
 	ops     []vOp
 	head    []string // the case/seg lines, echoed
@@ -60,6 +61,47 @@ func vTopic(tp int) (string, int32) { return "t" + strconv.Itoa(tp/2), int32(tp 
 func vTP(topic string, partition int32) int {
 	n, _ := strconv.Atoi(strings.TrimPrefix(topic, "t"))
 	return n*2 + int(partition)
+}
+
+// vBase is the BaseOffset the fake Lister reports for listing entry i: the first record's offset;
+// for a segment without records, one past the last offset of the partition's earlier segments.
+func vBase(segs []vSeg, i int) int64 {
+	if len(segs[i].offs) > 0 {
+		return segs[i].offs[0]
+	}
+	base := int64(0)
+	for j := 0; j < i; j++ {
+		if segs[j].tp == segs[i].tp && len(segs[j].offs) > 0 {
+			base = segs[j].offs[len(segs[j].offs)-1] + 1
+		}
+	}
+	return base
+}
+
+// vStats gives the MinOffset/MaxOffset statistics of listing entry i the way the real s3Lister
+// fills them in (discovery.go): mode "next" = MinOffset is the base offset, MaxOffset is one
+// below the base offset of the partition's next listed segment and absent for the newest one;
+// mode "footer" = both come from the segment itself (time-index footer: first and last record),
+// absent for a segment without records.  ok flags say which of the two is present.
+func vStats(mode string, segs []vSeg, i int) (min int64, hasMin bool, max int64, hasMax bool) {
+	switch mode {
+	case "next":
+		min, hasMin = vBase(segs, i), true
+		for j := i + 1; j < len(segs); j++ {
+			if segs[j].tp == segs[i].tp {
+				if b := vBase(segs, j); b > 0 {
+					max, hasMax = b-1, true
+				}
+				break
+			}
+		}
+	case "footer":
+		if n := len(segs[i].offs); n > 0 {
+			min, hasMin = segs[i].offs[0], true
+			max, hasMax = segs[i].offs[n-1], true
+		}
+	}
+	return
 }
 
 func vSegKey(i int) string { return "seg-" + strconv.Itoa(i) + ".kfs" }
@@ -84,10 +126,13 @@ func vParseCases(r io.Reader) ([]*vCase, error) {
 		}
 		switch f[0] {
 		case "case":
-			if len(f) != 3 {
+			if len(f) != 3 && len(f) != 4 {
 				return nil, fmt.Errorf("bad case line %q", sc.Text())
 			}
 			cur = &vCase{variant: f[1], store: f[2]}
+			if len(f) == 4 {
+				cur.stats = strings.TrimPrefix(f[3], "stats=")
+			}
 			cases = append(cases, cur)
 		case "seg":
 			if cur == nil || len(f) != 3 {
